@@ -1,8 +1,8 @@
 (** Executable entry point of the C01 model (spherical-harmonic transforms of
     both layouts, run at exact rationals) and its extraction.
     ExtrOcamlBasic only: Z, positive, Q, nat stay inductive.
-    The dispatcher is shared verbatim between ExC01.v and ExC09.v. *)
-From Dino Require Import Base.Ops Base.Sums Model.SHT Model.SHTFast Model.FourierR Gen.GridTable Extract.Common.
+    Commands 0-23 are shared verbatim with ExC09.v; 30-34 (associated_legendre.py, Model/Legendre.v) exist only here. *)
+From Dino Require Import Base.Ops Base.Sums Model.SHT Model.SHTFast Model.FourierR Gen.GridTable Gen.Legendre Model.Legendre Extract.Common.
 Require Extraction.
 Require Import ExtrOcamlBasic.
 
@@ -97,6 +97,26 @@ Definition run_C01 (cmd : Z) (ints : list Z) (arrs : list (list Q)) : option (li
       let M := intn ints 0 in let I := intn ints 1 in
       let c := arr2 M I (arr arrs 1) in let s := arr2 M I (arr arrs 2) in
       Some (tab2 I (2 * M) (real_basis_zi_g (scalar arrs 0 0) (scalar arrs 0 1) c s))
+  | 30%Z => (* associated_legendre: guards and the radicands np.sqrt is applied to.  ints n_m n_l *)
+      let n_m := intn ints 0 in let n_l := intn ints 1 in
+      Some ([qofb (legendre_accepts n_m n_l); qofb (legendre_defined n_m n_l)] ++ legendre_radicands n_m n_l)
+  | 31%Z => (* associated_legendre.evaluate: ints n_m n_l nx; arrs x, y = sqrt(1-x^2), radicands, their np.sqrt *)
+      let n_m := intn ints 0 in let n_l := intn ints 1 in let nx := intn ints 2 in
+      if legendre_defined n_m n_l
+      then Some (tab3 n_m nx n_l (legendre_evaluate (sq_table (arr arrs 2) (arr arrs 3)) nx (arrf arrs 0) (arrf arrs 1) n_m n_l))
+      else None
+  | 32%Z => (* associated_legendre._evaluate_rhombus(truncation='triangle'): ints n_l n_m nx; arrs as 31 *)
+      let n_l := intn ints 0 in let n_m := intn ints 1 in let nx := intn ints 2 in
+      if legendre_defined n_m n_l
+      then Some (tab3 n_l n_m nx (rhombus_triangle (sq_table (arr arrs 2) (arr arrs 3)) nx (arrf arrs 0) (arrf arrs 1) n_l n_m))
+      else None
+  | 33%Z => (* associated_legendre._compute_weights after the solve: ints n; arrs x, y, radicands, sqrt, w (solve result):
+               residual of the linear system (n entries) ++ normalised weights (n entries) *)
+      let n := intn ints 0 in
+      let sqf := sq_table (arr arrs 2) (arr arrs 3) in let w := arrf arrs 4 in
+      Some (qtab n (weights_residual sqf n (arrf arrs 0) (arrf arrs 1) n w) ++ qtab n (weights_normalise n w))
+  | 34%Z => (* the radicand of y = np.sqrt(1 - x*x) *)
+      Some (map (fun t => leg_y2 t) (arr arrs 0))
   | _ => None
   end.
 
